@@ -9,7 +9,8 @@ Clause tokens
   S1..S3  SIDE_EFFECT(SE(slot,k))    LS1..LS3  LR_SIDE_EFFECT(...)
   R / LR  RETURN(RV(slot)) / LR_RETURN(RV(slot))
   TH / TI THROW(std::runtime_error) / THROW(int)
-  Q1 / Q2 IN_SEQUENCE(one) / IN_SEQUENCE(two sequence objects)
+  Q1 / Q2 IN_SEQUENCE(one) / IN_SEQUENCE(two sequence objects)   Q3 IN_SEQUENCE(all three sequence objects; the third is 6 - q1 - q2)
+  LTH     LR_THROW(std::runtime_error)
   RT      RT_TIMES(lo, hi) with run-time bounds from the op script
   RT1     RT_TIMES(hi)  (exactly hi)   RTAL  RT_TIMES(AT_LEAST(lo))   RTAM  RT_TIMES(AT_MOST(hi))
   T<l>_<h>, T<n>, AL<n>, AM<n>  compile-time TIMES forms
@@ -141,6 +142,10 @@ SHAPES = [
     S(139, 'h', 'REQ',    'Q1 RT R'),
     S(140, 'z', 'REQ',    'W1 RT R'),
     S(142, 'q', 'REQ',    'RT R'),
+    S(145, 'f', 'REQ',    'Q3 RT R'),
+    S(146, 'v', 'REQ',    'RT Q3'),
+    S(147, 'f', 'REQ',    'LS1 RT LTH'),
+    S(148, 'v', 'REQ',    'RT LTH'),
     S(143, 'q', 'ALLOW',  'R'),
     S(144, 'q', 'REQ',    'S1 RT TH'),
     S(141, 'z', 'ALLOW',  'LW1 W2 R'),
@@ -151,7 +156,7 @@ SHAPES = [
 WATCHED_IDS = {110, 111, 112}
 RTFORM_IDS = set(range(120, 126))
 ANYFORM_IDS = {126, 127}
-ARITY_IDS = set(range(130, 145))
+ARITY_IDS = set(range(130, 149))
 NONMOVABLE_IDS = set(range(100, 106))
 SCOPED_IDS = set(range(70, 85)) | {105}
 
@@ -178,10 +183,10 @@ def derive(sh):
     cl = sh['cl']
     nw = sum(1 for c in cl if c.lstrip('L').startswith('W'))
     ns = sum(1 for c in cl if c.lstrip('LM').startswith('S'))
-    nq = 2 if 'Q2' in cl else (1 if 'Q1' in cl else 0)
+    nq = 3 if 'Q3' in cl else 2 if 'Q2' in cl else (1 if 'Q1' in cl else 0)
     if 'R' in cl or 'LR' in cl:
         retk = 1            # value
-    elif 'TH' in cl:
+    elif 'TH' in cl or 'LTH' in cl:
         retk = 2            # throws std::runtime_error
     elif 'TI' in cl:
         retk = 3            # throws int
@@ -198,7 +203,7 @@ def derive(sh):
     # is the bounds clause evaluated before the IN_SEQUENCE clause?  (what
     # bounds the sequence handle copies at registration time)
     bidx = [i for i, c in enumerate(cl) if c in ('RT', 'RT1', 'RTAL', 'RTAM') or static_bounds(c)]
-    qidx = [i for i, c in enumerate(cl) if c in ('Q1', 'Q2')]
+    qidx = [i for i, c in enumerate(cl) if c in ('Q1', 'Q2', 'Q3')]
     bounds_first = bool(bidx and qidx and bidx[0] < qidx[0])
     if fam != 'REQ':
         bounds_first = True
